@@ -91,6 +91,7 @@ type wire struct {
 	closed     bool
 	failWrites bool
 	writes     int
+	rec        []byte // everything ever written (what a passive recorder on the link keeps)
 }
 
 func newWire() *wire {
@@ -120,6 +121,7 @@ func (w *wire) write(p []byte) (int, error) {
 		return 0, io.ErrClosedPipe
 	}
 	w.buf = append(append([]byte{}, w.buf...), p...)
+	w.rec = append(w.rec, p...)
 	w.writes++
 	w.cond.Broadcast()
 	return len(p), nil
@@ -173,8 +175,11 @@ type pair struct {
 }
 
 func honestPair() (*pair, error) {
+	return honestPairKeys(ed25519.GenPrivKey(), ed25519.GenPrivKey())
+}
+
+func honestPairKeys(ka, kb ed25519.PrivKey) (*pair, error) {
 	ab, ba := newWire(), newWire()
-	ka, kb := ed25519.GenPrivKey(), ed25519.GenPrivKey()
 	var a, b *conn.SecretConnection
 	var ea, eb error
 	var wg sync.WaitGroup
@@ -311,6 +316,18 @@ func execCase(c core.Case) []string {
 			as, ar := p.a.VerifNonces()
 			bs, br := p.b.VerifNonces()
 			out = append(out, fmt.Sprintf("ok a=%d,%d b=%d,%d", as, ar, bs, br))
+			continue
+		}
+		if f[0] == "multi" {
+			k, ok1 := atoi(m["k"])
+			rn, ok2 := atoi(m["r"])
+			if !ok1 || !ok2 || k < 1 || k > 16 || rn > 64 {
+				out = append(out, "bad-op")
+				continue
+			}
+			v := multiSession(k, rn)
+			count(mitmHist, "multi "+v)
+			out = append(out, v)
 			continue
 		}
 		if f[0] == "up" {
@@ -671,8 +688,10 @@ type victim struct {
 	frV  *wire // victim -> adversary
 }
 
-func startVictim() *victim {
-	v := &victim{key: ed25519.GenPrivKey(), done: make(chan struct{}), toV: newWire(), frV: newWire()}
+func startVictim() *victim { return startVictimKey(ed25519.GenPrivKey()) }
+
+func startVictimKey(key ed25519.PrivKey) *victim {
+	v := &victim{key: key, done: make(chan struct{}), toV: newWire(), frV: newWire()}
 	go func() {
 		defer close(v.done)
 		defer func() {
@@ -955,6 +974,107 @@ func mitm(kind string, k int) string {
 	return "bad-op"
 }
 
+// ---- several sessions of one node in one process, with a recorder on the link ----
+
+type recorded struct {
+	nSide, xSide []byte // all bytes the node / its peer put on the link in that session
+	xKey         crypto.PubKey
+}
+
+// ephOf extracts the cleartext ephemeral public key from the first handshake message.
+func ephOf(side []byte) (string, bool) {
+	if len(side) < 35 || side[0] != 0x22 || side[1] != 0x0a || side[2] != 0x20 {
+		return "", false
+	}
+	return string(side[3:35]), true
+}
+
+// multiSession: node N (one long-term key, one process) runs k honest sessions with fresh peers,
+// each followed by one data message from the peer; a passive recorder keeps both sides. Then r
+// more handshakes of N are answered by a party holding no key at all that replays a recorded
+// side verbatim — the side recorded opposite to the ephemeral key N shows now if N has shown it
+// before, else the peer side of session (t mod k). Reports whether all ephemeral public keys sent
+// by honest endpoints were distinct, and the verdict of every replay.
+func multiSession(k, r int) string {
+	nKey := ed25519.GenPrivKey()
+	var recs []recorded
+	seen := map[string]int{}
+	distinct := true
+	note := func(side []byte) bool {
+		e, ok := ephOf(side)
+		if !ok {
+			return false
+		}
+		seen[e]++
+		if seen[e] > 1 {
+			distinct = false
+		}
+		return true
+	}
+	for i := 0; i < k; i++ {
+		xKey := ed25519.GenPrivKey()
+		p, err := honestPairKeys(nKey, xKey)
+		if err != nil {
+			return "session-failed:" + strings.ReplaceAll(err.Error(), " ", "_")
+		}
+		msg := []byte(fmt.Sprintf("hello from peer %d", i))
+		if _, err := p.b.Write(msg); err != nil {
+			return "session-failed:write"
+		}
+		buf := make([]byte, 64)
+		n, err := p.a.Read(buf)
+		if err != nil || !bytes.Equal(buf[:n], msg) {
+			return "session-failed:read"
+		}
+		rc := recorded{nSide: append([]byte{}, p.ab.w.rec...), xSide: append([]byte{}, p.ba.w.rec...), xKey: xKey.PubKey()}
+		if !note(rc.nSide) || !note(rc.xSide) {
+			return "session-failed:unparsed-ephemeral"
+		}
+		recs = append(recs, rc)
+	}
+	var verdicts []string
+	for t := 0; t < r; t++ {
+		v := startVictimKey(nKey)
+		first := make([]byte, 35)
+		if _, err := io.ReadFull(&endConn{in: v.frV, out: v.toV}, first); err != nil {
+			v.finish()
+			verdicts = append(verdicts, "no-ephemeral")
+			continue
+		}
+		e, _ := ephOf(first)
+		replay := recs[t%k].xSide
+		for _, rc := range recs {
+			if ne, _ := ephOf(rc.nSide); ne == e {
+				replay = rc.xSide
+			} else if xe, _ := ephOf(rc.xSide); xe == e {
+				replay = rc.nSide
+			}
+		}
+		note(first)
+		v.toV.write(replay)
+		v.toV.close()
+		<-v.done
+		vd := v.verdict(nil, nil)
+		if v.err == nil {
+			vd = "ok:replayed-session"
+			buf := make([]byte, 64)
+			if n, err := v.sc.Read(buf); err == nil && n > 0 {
+				vd += "+data"
+			}
+		}
+		verdicts = append(verdicts, vd)
+	}
+	d := "distinct"
+	if !distinct {
+		d = "reused"
+	}
+	rs := "-"
+	if len(verdicts) > 0 {
+		rs = strings.Join(verdicts, ",")
+	}
+	return fmt.Sprintf("eph=%s replays=%s", d, rs)
+}
+
 // ---- transport.upgrade: the identity checks on top of the secret connection ----
 
 func mkNodeInfo(id p2p.ID) p2p.DefaultNodeInfo {
@@ -1168,6 +1288,23 @@ func oracle(c core.Case, out []string) []core.Finding {
 				return fs
 			}
 			ds = map[string]*odir{"ab": {wNonce: 1, rNonce: 1}, "ba": {wNonce: 1, rNonce: 1}}
+			continue
+		case "multi":
+			switch {
+			case o == "bad-op":
+			case strings.HasPrefix(o, "session-failed"):
+				add("secretconn.handshake.honest-pair-fails", "multi-session run: "+o)
+			default:
+				if field(o, "eph") != "distinct" {
+					add("secretconn.handshake.ephemeral-key-reused", "an honest endpoint sent the same cleartext ephemeral public key in two sessions of one process: "+o)
+				}
+				for _, v := range strings.Split(field(o, "replays"), ",") {
+					if strings.HasPrefix(v, "ok") {
+						add("secretconn.handshake.replayed-session-accepted", "a party holding no private key replayed the recorded remote side of an earlier session and MakeSecretConnection completed (and read the replayed data frame if +data): "+o)
+						break
+					}
+				}
+			}
 			continue
 		case "up":
 			kind := m["kind"]
@@ -1732,6 +1869,10 @@ func genMitm(r *rand.Rand, emit func(core.Case), rounds int) {
 		for _, k := range upKinds {
 			emit(core.Case{Kind: "upgrade", Ops: []string{"up kind=" + k}})
 		}
+		for i := 0; i < 6; i++ {
+			k := 1 + r.Intn(8)
+			emit(core.Case{Kind: "multi-session", Ops: []string{fmt.Sprintf("multi k=%d r=%d", k, k+r.Intn(2*k+1))}})
+		}
 		for _, k := range mitmKinds {
 			emit(core.Case{Kind: "mitm", Ops: []string{"mitm kind=" + k}})
 		}
@@ -1742,7 +1883,7 @@ func genMitm(r *rand.Rand, emit func(core.Case), rounds int) {
 	// glue: malformed lines
 	emit(core.Case{Kind: "glue", Ops: []string{"r d=ab k=1", "hs", "r d=xx k=1", "w d=ab", "flip d=ab off=0 bit=9",
 		"flip d=ab off=0 bit=1", "cut d=ab off=0 len=1", "trunc d=ab n=1", "swapf d=ab i=0 j=0", "dupf d=ab i=0 at=0",
-		"mitm kind=nonsense", "mitm", "up", "up kind=nonsense", "mitm kind=low-order k=99", "wraw d=ab len=4294967296 body=00", "wraw d=ab len=1", "wraw d=ab len=3 body=010203", "reflectw d=zz", "setnonce d=ab side=x v=1", "frob d=ab", "r d=ab k=0", "w d=ab data=-", "r d=ab k=4"}})
+		"mitm kind=nonsense", "mitm", "up", "up kind=nonsense", "multi", "multi k=0 r=1", "multi k=2 r=0", "multi k=17 r=1", "mitm kind=low-order k=99", "wraw d=ab len=4294967296 body=00", "wraw d=ab len=1", "wraw d=ab len=3 body=010203", "reflectw d=zz", "setnonce d=ab side=x v=1", "frob d=ab", "r d=ab k=0", "w d=ab data=-", "r d=ab k=4"}})
 }
 
 func main() {
@@ -1766,7 +1907,7 @@ func main() {
 		Oracle: oracle,
 		NonTrivial: func(c core.Case, out []string) bool {
 			for _, o := range out {
-				if strings.HasPrefix(o, "ok ") || strings.HasPrefix(o, "a=") || strings.HasPrefix(o, "rej:") || o == "ok" {
+				if strings.HasPrefix(o, "ok ") || strings.HasPrefix(o, "a=") || strings.HasPrefix(o, "rej:") || strings.HasPrefix(o, "eph=") || o == "ok" {
 					return true
 				}
 			}
